@@ -353,3 +353,591 @@ def make_points(model, K):
 
 def rename_point(pt, ren):
     return {ren.get(k, k): v for k, v in pt.items()}
+
+
+# ----------------------------------------------------------------------------------------------
+# models: example models and variants reached by one transformation (named, so a case can be replayed)
+# ----------------------------------------------------------------------------------------------
+
+_MODEL_CACHE = {}
+
+
+def base_model(name):
+    if name not in _MODEL_CACHE:
+        _MODEL_CACHE[name] = pm().load_example_model(name)
+    return _MODEL_CACHE[name]
+
+
+def _variants():
+    P = pm()
+    return {
+        'none': lambda m: m,
+        'add_peripheral_compartment': lambda m: P.add_peripheral_compartment(m),
+        'set_first_order_absorption': lambda m: P.set_first_order_absorption(m),
+        'set_zero_order_absorption': lambda m: P.set_zero_order_absorption(m),
+        'set_michaelis_menten_elimination': lambda m: P.set_michaelis_menten_elimination(m),
+        'set_transit_compartments_2': lambda m: P.set_transit_compartments(m, 2),
+        'add_lag_time': lambda m: P.add_lag_time(m),
+        'remove_lag_time': lambda m: P.remove_lag_time(m),
+        'add_bioavailability': lambda m: P.add_bioavailability(m),
+        'set_proportional_error_model': lambda m: P.set_proportional_error_model(m),
+        'set_combined_error_model': lambda m: P.set_combined_error_model(m),
+        'set_power_on_ruv': lambda m: P.set_power_on_ruv(m),
+        'add_covariate_effect_CL_APGR_exp': lambda m: P.add_covariate_effect(m, 'CL', 'APGR', 'exp'),
+        'add_covariate_effect_CL_APGR_cat': lambda m: P.add_covariate_effect(m, 'CL', 'APGR', 'cat'),
+        'add_iov_FA1': lambda m: P.add_iov(m, 'FA1'),
+        'remove_iov': lambda m: P.remove_iov(m),
+        'transform_etas_boxcox': lambda m: P.transform_etas_boxcox(m),
+        'create_joint_distribution': lambda m: P.create_joint_distribution(m),
+        'split_joint_distribution': lambda m: P.split_joint_distribution(m),
+        'fix_second_theta': lambda m: P.fix_parameters(m, [P.get_thetas(m).names[1]]),
+        'fix_all_thetas': lambda m: P.fix_parameters(m, P.get_thetas(m).names),
+        'fix_last_iiv_omega_to_0': lambda m: P.fix_parameters_to(
+            m, {[_sp(d.variance).name for d in m.random_variables.etas if len(d.names) == 1][-1]: 0}),
+        'add_unused_parameter': lambda m: P.add_population_parameter(m, 'FOOUNUSED', 1.5),
+        'add_iiv_S1': lambda m: P.add_iiv(m, 'S1', 'exp'),
+        'add_allometry': lambda m: P.add_allometry(m, allometric_variable='WGT'),
+    }
+
+
+_BASE_VARIANTS_QUICK = [
+    ('pheno', ['none', 'add_peripheral_compartment', 'set_first_order_absorption',
+               'set_zero_order_absorption', 'set_michaelis_menten_elimination',
+               'set_transit_compartments_2', 'add_lag_time', 'add_bioavailability',
+               'set_combined_error_model', 'set_power_on_ruv',
+               'add_covariate_effect_CL_APGR_exp', 'add_covariate_effect_CL_APGR_cat', 'add_iov_FA1',
+               'transform_etas_boxcox', 'create_joint_distribution', 'fix_second_theta',
+               'fix_all_thetas', 'fix_last_iiv_omega_to_0', 'add_unused_parameter', 'add_iiv_S1']),
+    ('pheno_linear', ['none', 'add_unused_parameter']),
+    ('moxo', ['none', 'add_peripheral_compartment', 'remove_lag_time', 'set_zero_order_absorption',
+              'split_joint_distribution', 'fix_second_theta', 'fix_last_iiv_omega_to_0',
+              'set_combined_error_model', 'remove_iov', 'add_unused_parameter']),
+]
+
+
+def variant_model(base, variant):
+    key = (base, variant)
+    if key not in _MODEL_CACHE:
+        _MODEL_CACHE[key] = _variants()[variant](base_model(base))
+    return _MODEL_CACHE[key]
+
+
+def _fid(fn):
+    mod = fn.__module__
+    return 'src/' + mod.replace('.', '/') + '.py:' + fn.__name__
+
+
+# ----------------------------------------------------------------------------------------------
+# (1) refactorings  -- C07
+# ----------------------------------------------------------------------------------------------
+
+def _positional_renaming(m0, m1):
+    """renaming declared by greekify_model: i-th parameter -> i-th parameter, i-th rv -> i-th rv"""
+    ren = {}
+    if len(m0.parameters) == len(m1.parameters):
+        ren.update(dict(zip(m0.parameters.names, m1.parameters.names)))
+    if len(m0.random_variables.names) == len(m1.random_variables.names):
+        ren.update(dict(zip(m0.random_variables.names, m1.random_variables.names)))
+    return ren
+
+
+def _reparse(m):
+    return pm().read_model_from_string(m.code)
+
+
+def _refactorings():
+    """name -> (function under contract, callable(model, arg) -> (new model, declared renaming))"""
+    P = pm()
+
+    def plain(fn, **kw):
+        return fn, (lambda m, arg: (fn(m, **kw), {}))
+
+    def greek(named):
+        def run(m, arg):
+            r = P.greekify_model(m, named_subscripts=named)
+            return r, _positional_renaming(m, r)
+        return P.greekify_model, run
+
+    def rename(m, arg):
+        new = arg + 'QX'
+        return P.rename_symbols(m, {arg: new}), {arg: new}
+
+    def joint(m, arg):
+        return P.create_joint_distribution(m, rvs=arg, individual_estimates=None), {}
+
+    def split(m, arg):
+        return P.split_joint_distribution(m, rvs=arg), {}
+
+    def unload_load(m, arg):
+        return P.load_dataset(P.unload_dataset(m)), {}
+
+    def to_generic(m, arg):
+        return P.convert_model(m, 'generic'), {}
+
+    def generic_nonmem(m, arg):
+        return P.convert_model(P.convert_model(m, 'generic'), 'nonmem'), {}
+
+    def generic_nonmem_reparse(m, arg):
+        return _reparse(P.convert_model(P.convert_model(m, 'generic'), 'nonmem')), {}
+
+    def code_reparse(m, arg):
+        return _reparse(m), {}
+
+    return {
+        'mu_reference_model': plain(P.mu_reference_model),
+        'make_declarative': plain(P.make_declarative),
+        'cleanup_model': plain(P.cleanup_model),
+        'greekify_model': greek(False),
+        'greekify_model_named': greek(True),
+        'rename_symbols': (P.rename_symbols, rename),
+        'remove_unused_parameters_and_rvs': plain(P.remove_unused_parameters_and_rvs),
+        'create_joint_distribution': (P.create_joint_distribution, joint),
+        'split_joint_distribution': (P.split_joint_distribution, split),
+        'replace_fixed_thetas': plain(P.replace_fixed_thetas),
+        'unload_load_dataset': (P.load_dataset, unload_load),
+        'unload_dataset': plain(P.unload_dataset),
+        'convert_model_generic': (P.convert_model, to_generic),
+        'convert_model_generic_nonmem': (P.convert_model, generic_nonmem),
+        'convert_model_generic_nonmem_reparse': (P.convert_model, generic_nonmem_reparse),
+        'model_code_reparse': (type(base_model('pheno')).update_source, code_reparse),
+        'solve_ode_system': plain(P.solve_ode_system),
+        'simplify_expression': (P.simplify_expression, None),
+    }
+
+
+def _assigned_names(model):
+    from pharmpy.model import Assignment
+
+    out = []
+    for s in model.statements:
+        if isinstance(s, Assignment):
+            n = _sname(s.symbol)
+            if n not in out:
+                out.append(n)
+    return out
+
+
+def _rename_targets(model, tier, variant):
+    """symbols to rename, one at a time"""
+    pars = list(model.parameters.names)
+    rvs = list(model.random_variables.names)
+    ass = [n for n in _assigned_names(model) if isinstance(n, str)]
+    ass = [n for n in ass if not n.startswith('A_')]
+    if tier == 'thorough' or variant == 'none':
+        return pars + rvs + ass
+    ips = [n for n in ass if n in ('CL', 'V', 'VC', 'KA', 'IPRED')]
+    cand = pars[:1] + pars[-1:] + rvs[:1] + rvs[-1:] + ips[:2] + ass[-1:]
+    out = []
+    for c in cand:
+        if c not in out:
+            out.append(c)
+    return out
+
+
+def _iiv_eta_groups(model):
+    etas = model.random_variables.iiv
+    names = [n for n in etas.names]
+    return names
+
+
+def refactoring_cases(tier):
+    """exhaustive list of cases in small-first order"""
+    cases = []
+    for base, variants in _BASE_VARIANTS_QUICK:
+        for variant in variants:
+            try:
+                m = variant_model(base, variant)
+            except Exception:
+                cases.append({'model': base, 'variant': variant, 'refactoring': 'none', 'arg': None})
+                continue
+            for r in ('mu_reference_model', 'make_declarative', 'cleanup_model', 'greekify_model',
+                      'greekify_model_named', 'remove_unused_parameters_and_rvs', 'replace_fixed_thetas',
+                      'unload_dataset', 'unload_load_dataset', 'convert_model_generic',
+                      'convert_model_generic_nonmem', 'convert_model_generic_nonmem_reparse',
+                      'model_code_reparse', 'simplify_expression', 'split_joint_distribution'):
+                cases.append({'model': base, 'variant': variant, 'refactoring': r, 'arg': None})
+            for s in _rename_targets(m, tier, variant):
+                cases.append({'model': base, 'variant': variant, 'refactoring': 'rename_symbols', 'arg': s})
+            iiv = _iiv_eta_groups(m)
+            cases.append({'model': base, 'variant': variant, 'refactoring': 'create_joint_distribution',
+                          'arg': None})
+            if len(iiv) > 2 or tier == 'thorough':
+                for pair in itertools.combinations(iiv, 2):
+                    cases.append({'model': base, 'variant': variant,
+                                  'refactoring': 'create_joint_distribution', 'arg': list(pair)})
+            for n in iiv:
+                cases.append({'model': base, 'variant': variant, 'refactoring': 'split_joint_distribution',
+                              'arg': [n]})
+            if m.statements.ode_system is not None:
+                cases.append({'model': base, 'variant': variant, 'refactoring': 'solve_ode_system',
+                              'arg': None})
+    return cases
+
+
+def _observables(model):
+    """names whose values define the model function: dependent variables and individual parameters"""
+    dvs = [_sname(y) for y in model.dependent_variables]
+    try:
+        ips = list(pm().get_individual_parameters(model))
+    except Exception:
+        ips = []
+    return dvs, ips
+
+
+def _variances(model, point):
+    """marginal variance value of every random variable at the point (read from the distributions)"""
+    out = {}
+    for dist in model.random_variables:
+        var = dist.variance
+        names = dist.names
+        if len(names) == 1:
+            out[names[0]] = num(var, point)
+        else:
+            for i, n in enumerate(names):
+                out[n] = num(var[i, i], point)
+    return out
+
+
+def _snapshot(model):
+    ds = model.dataset
+    return (model.statements, model.parameters, model.random_variables,
+            None if ds is None else (tuple(ds.columns), ds.shape), model.dependent_variables)
+
+
+def _ode_is_linear_bolus(model):
+    from pharmpy.model import Bolus
+
+    cs = model.statements.ode_system
+    if cs is None:
+        return False
+    amounts = set()
+    for c in cs._g.nodes:
+        if hasattr(c, 'amount'):
+            amounts.add(_sp(c.amount))
+            if any(not isinstance(d, Bolus) for d in c.doses):
+                return False
+            if _sp(c.input) != 0:
+                return False
+    for u, v, d in cs._g.edges(data=True):
+        if _sp(d['rate']).atoms(AppliedUndef) & amounts:
+            return False
+    return True
+
+
+_K_QUICK = 6
+_K_THOROUGH = 12
+
+
+def run_refactoring_case(case, tier='quick'):
+    """returns dict(nontrivial=bool, fails=[(fid, clause, detail)])"""
+    K = _K_THOROUGH if tier == 'thorough' else _K_QUICK
+    fails = []
+    R = _refactorings()
+    tag = f"{case['model']}/{case['variant']} {case['refactoring']}({case['arg']})"
+    try:
+        m0 = variant_model(case['model'], case['variant'])
+    except Exception as e:
+        # the variant itself cannot be built: not a refactoring failure, no precondition
+        return {'nontrivial': False, 'fails': [], 'note': f'variant not buildable: {e!r}'}
+    if case['refactoring'] == 'none':
+        return {'nontrivial': False, 'fails': []}
+    fn, run = R[case['refactoring']]
+    fid = _fid(fn) if hasattr(fn, '__module__') else str(fn)
+    if case['refactoring'] == 'model_code_reparse':
+        fid = 'src/pharmpy/model/external/nonmem/model.py:Model.update_source'
+
+    def fail(clause, detail):
+        fails.append((fid, clause, f'{tag}: {detail}'))
+
+    pts = make_points(m0, K)
+    dose_cols = []
+    try:
+        dose_cols = list(m0.datainfo.typeix['dose'].names)
+    except Exception:
+        dose_cols = [c for c in m0.datainfo.names if c == 'AMT']
+    for k, pt in enumerate(pts):
+        for c in dose_cols:
+            if k % 2 == 0:
+                pt[c] = 25.0 * (k + 1)
+
+    if case['refactoring'] == 'simplify_expression':
+        from pharmpy.model import Assignment
+
+        nontriv = False
+        for s in m0.statements:
+            if not isinstance(s, Assignment):
+                continue
+            try:
+                simp = pm().simplify_expression(m0, s.expression)
+            except Exception as e:
+                fail('refactoring completes without an exception on a valid model',
+                     f'simplify_expression({s.expression}) raised {type(e).__name__}: {e}')
+                continue
+            for pt in pts:
+                env = dict(pt)
+                # symbols defined by earlier statements: any value is an admissible input here
+                for j, a in enumerate(sorted(x.name for x in _sp(s.expression).free_symbols)):
+                    env.setdefault(a, 0.37 + 0.21 * j)
+                try:
+                    v0 = num(s.expression, env)
+                except Undefined:
+                    continue
+                if _isbad(v0):
+                    continue
+                try:
+                    v1 = num(simp, env)
+                except Undefined as e:
+                    fail('every symbol used is defined', f'{s.expression} -> {simp}: {e}')
+                    break
+                nontriv = True
+                if not close(v0, v1):
+                    fail('simplified expression has the same value as the original expression',
+                         f'{s.expression} = {v0!r} but simplified {simp} = {v1!r} at {_short(env, s)}')
+                    break
+        return {'nontrivial': nontriv, 'fails': fails}
+
+    # precondition: the original model evaluates
+    snap = _snapshot(m0)
+    solve = case['refactoring'] == 'solve_ode_system'
+    if solve and not _ode_is_linear_bolus(m0):
+        mode0 = None  # no reference solution: only check "no internal error" and definedness
+    else:
+        mode0 = 'ode' if solve else 'input'
+    try:
+        ref = [eval_model(m0, pt, mode0 or 'input') for pt in pts]
+    except Undefined as e:
+        return {'nontrivial': False, 'fails': [], 'note': f'original model not evaluable: {e}'}
+
+    if case['refactoring'] in ('split_joint_distribution', 'create_joint_distribution'):
+        iiv = _iiv_eta_groups(m0)
+        nonfixed = [n for n in iiv if n not in zero_variance_rvs(m0)]
+        if case['refactoring'] == 'create_joint_distribution':
+            sel = case['arg'] if case['arg'] is not None else nonfixed
+            if len(sel) < 2:
+                return {'nontrivial': False, 'fails': []}
+    try:
+        m1, ren = run(m0, case['arg'])
+    except Exception as e:
+        if solve and mode0 is None and isinstance(e, NotImplementedError):
+            return {'nontrivial': False, 'fails': []}
+        tb = traceback.format_exc().strip().splitlines()
+        loc = [ln.strip() for ln in tb if ln.strip().startswith('File')][-1:]
+        fail('refactoring completes without an exception on a valid model',
+             f'raised {type(e).__name__}: {str(e)[:200]} {loc}')
+        return {'nontrivial': True, 'fails': fails}
+
+    after = _snapshot(m0)
+    if not (after[0] == snap[0] and after[1] == snap[1] and after[2] == snap[2] and after[3] == snap[3]
+            and after[4] == snap[4]):
+        fail('input model is not modified', 'statements/parameters/random variables/dataset of the input changed')
+
+    dvs, ips = _observables(m0)
+    dv1 = [_sname(y) for y in m1.dependent_variables]
+    if sorted(ren.get(y, y) for y in dvs) != sorted(dv1):
+        fail('dependent variables are the same up to the declared renaming',
+             f'{dvs} -> {dv1} with renaming {ren}')
+
+    bad_seen = set()
+    for k, pt in enumerate(pts):
+        d0, sig0, env0 = ref[k]
+        if any(_isbad(d0.get(y, float('nan'))) for y in dvs):
+            continue
+        pt1 = rename_point(pt, ren)
+        # a fixed parameter keeps its value, a removed parameter is simply not read
+        try:
+            d1, sig1, env1 = eval_model(m1, pt1, 'input')
+        except Undefined as e:
+            if 'defined' not in bad_seen:
+                bad_seen.add('defined')
+                fail('every symbol used is defined (parameter, random variable, data column, t, amount or '
+                     'earlier assignment)', str(e))
+            continue
+        for y in dvs:
+            y1 = ren.get(y, y)
+            if y1 not in d1:
+                if 'dvdef' not in bad_seen:
+                    bad_seen.add('dvdef')
+                    fail('dependent variables have the same value at every grid point', f'{y1} is not assigned')
+                continue
+            if not close(d0[y], d1[y1]) and 'dv' not in bad_seen:
+                bad_seen.add('dv')
+                fail('dependent variables have the same value at every grid point',
+                     f'{y}: {d0[y]!r} before, {d1[y1]!r} after, at point {k} {_short_pt(pt)}')
+        for p in ips:
+            p1 = ren.get(p, p)
+            if p not in d0 or _isbad(d0[p]):
+                continue
+            if p1 not in d1:
+                if 'ipdef' not in bad_seen:
+                    bad_seen.add('ipdef')
+                    fail('individual parameters have the same value at every grid point',
+                         f'{p1} is no longer assigned')
+                continue
+            if not close(d0[p], d1[p1]) and 'ip' not in bad_seen:
+                bad_seen.add('ip')
+                fail('individual parameters have the same value at every grid point',
+                     f'{p}: {d0[p]!r} before, {d1[p1]!r} after, at point {k} {_short_pt(pt)}')
+        if solve:
+            if mode0 == 'ode':
+                for a, v in ode_reference_amounts(sig0, env0['t']).items():
+                    if a not in d1:
+                        if 'amdef' not in bad_seen:
+                            bad_seen.add('amdef')
+                            fail('closed-form amounts equal the reference solution of the compartmental system',
+                                 f'{a}(t) is not assigned after solve_ode_system')
+                    elif not close(v, d1[a], rtol=1e-6, atol=1e-9) and 'am' not in bad_seen:
+                        bad_seen.add('am')
+                        fail('closed-form amounts equal the reference solution of the compartmental system',
+                             f'{a}(t): reference {v!r}, closed form {d1[a]!r} at point {k} {_short_pt(pt)}')
+            if sig1 is not None and 'odeleft' not in bad_seen:
+                bad_seen.add('odeleft')
+                fail('solve_ode_system leaves no compartmental system', 'ode_system still present')
+        else:
+            diff = sig_diff(sig0, sig1)
+            if diff and 'sig' not in bad_seen:
+                bad_seen.add('sig')
+                fail('compartmental system is the same (doses, lag time, bioavailability, rates) at every grid point',
+                     f'{diff} at point {k}')
+        # marginal variances of the random effects that the model function reads
+        try:
+            v0 = _variances(m0, pt)
+            v1 = _variances(m1, pt1)
+            for n, val in v0.items():
+                n1 = ren.get(n, n)
+                if n1 in v1 and not close(val, v1[n1]) and 'var' not in bad_seen:
+                    bad_seen.add('var')
+                    fail('random effects keep their marginal variance',
+                         f'var({n}) {val!r} before, {v1[n1]!r} after at point {k}')
+        except Undefined as e:
+            if 'vardef' not in bad_seen:
+                bad_seen.add('vardef')
+                fail('random effects keep their marginal variance', f'variance not evaluable: {e}')
+
+    # refactoring specific documented effects
+    r = case['refactoring']
+    if r == 'unload_load_dataset' and m0.dataset is not None:
+        if m1.dataset is None or not m1.dataset.equals(m0.dataset):
+            fail('load_dataset after unload_dataset restores an equal dataset', 'datasets differ')
+    if r == 'unload_dataset' and m1.dataset is not None:
+        fail('unload_dataset removes the dataset', 'dataset still present')
+    if r == 'remove_unused_parameters_and_rvs':
+        used = set()
+        for s in m1.statements:
+            used |= {x.name for x in _sp_free(s)}
+        for n in m1.random_variables.names:
+            if n not in used:
+                fail('no unused random variable is left', f'{n} is not used by any statement')
+        for dist in m1.random_variables:
+            used |= {x.name for x in _sp(dist.variance).free_symbols} if len(dist.names) == 1 else \
+                {x.name for x in sympy.Matrix(dist.variance._sympy_() if hasattr(dist.variance, '_sympy_')
+                                              else dist.variance).free_symbols}
+        for n in m1.parameters.names:
+            if n not in used:
+                fail('no unused parameter is left', f'{n} is not used by any statement or distribution')
+    if r == 'make_declarative' or r == 'cleanup_model':
+        names = [n for n in (_sname(s.symbol) for s in m1.statements if hasattr(s, 'symbol'))]
+        dup = sorted({n for n in names if names.count(n) > 1})
+        if dup:
+            fail('each symbol is assigned only once', f'{dup} assigned more than once')
+    if r == 'replace_fixed_thetas':
+        left = [p.name for p in pm().get_thetas(m1) if p.fix]
+        if left:
+            fail('no fixed theta is left as a parameter', f'{left}')
+    if r == 'split_joint_distribution':
+        sel = case['arg']
+        for dist in m1.random_variables.iiv:
+            if len(dist.names) > 1 and (sel is None or set(sel) & set(dist.names)):
+                if sel is None and set(dist.names) & zero_variance_rvs(m0):
+                    continue
+                fail('requested etas are no longer part of a joint distribution', f'{dist.names} still joint')
+    if r == 'create_joint_distribution':
+        sel = case['arg'] if case['arg'] is not None else nonfixed
+        together = [set(d.names) for d in m1.random_variables if set(sel) <= set(d.names)]
+        if not together:
+            fail('requested etas follow one joint distribution', f'{sel} not in one distribution: '
+                 f'{[d.names for d in m1.random_variables]}')
+    return {'nontrivial': True, 'fails': fails}
+
+
+def _sp_free(stat):
+    from pharmpy.model import Assignment
+
+    if isinstance(stat, Assignment):
+        return _sp(stat.expression).free_symbols | _sp(stat.symbol).free_symbols
+    out = set()
+    for x in stat.free_symbols:
+        out |= _sp(x).free_symbols
+    return out
+
+
+def _short_pt(pt):
+    return {k: (round(v, 5) if isinstance(v, float) else v) for k, v in list(pt.items())[:40]}
+
+
+def _short(env, s):
+    names = {x.name for x in _sp(s.expression).free_symbols}
+    return {k: round(v, 6) for k, v in env.items() if k in names}
+
+
+def _refactoring_worker(args):
+    case, tier = args
+    try:
+        return case, run_refactoring_case(case, tier)
+    except Exception:
+        return case, {'nontrivial': False, 'fails': [('contracts/b_ext.py:run_refactoring_case',
+                                                      'checker error', traceback.format_exc()[-600:])]}
+
+
+def _pool_map(worker, items, procs=16):
+    if os.environ.get('B_EXT_SERIAL'):
+        return [worker(i) for i in items]
+    ctx = multiprocessing.get_context('fork')
+    with ctx.Pool(procs) as pool:
+        return pool.map(worker, items, chunksize=1)
+
+
+def _collect(results, replay_fn):
+    fails = {}
+    nontriv = 0
+    for case, res in results:
+        if res.get('nontrivial'):
+            nontriv += 1
+        for fid, clause, detail in res['fails']:
+            if (fid, clause) not in fails:
+                fails[(fid, clause)] = {'fid': fid, 'clause': clause, 'detail': detail[:900], 'case': case,
+                                        'replay_fn': replay_fn}
+    return nontriv, list(fails.values())
+
+
+def bounded_refactorings(tier):
+    pm()
+    for base, variants in _BASE_VARIANTS_QUICK:
+        for v in variants:
+            try:
+                variant_model(base, v)
+            except Exception:
+                pass
+    cases = refactoring_cases(tier)
+    results = _pool_map(_refactoring_worker, [(c, tier) for c in cases])
+    nontriv, fails = _collect(results, 'bounded_refactorings_replay')
+    K = _K_THOROUGH if tier == 'thorough' else _K_QUICK
+    nvar = sum(len(v) for _, v in _BASE_VARIANTS_QUICK)
+    return {
+        'cases': len(cases), 'nontrivial': nontriv,
+        'bound': f'{nvar} models (pheno, pheno_linear, moxo and variants reached by one transformation) x '
+                 f'18 refactoring kinds (rename_symbols over '
+                 f'{"every symbol" if tier == "thorough" else "every symbol of the 3 base models, 7 symbols of each variant"}'
+                 f', create_joint_distribution over all pairs of IIV etas, split over every eta) x {K} input points '
+                 f'(parameters within bounds, etas, epsilons, data rows, t, amounts)',
+        'samples': [repr(cases[i]) for i in (0, len(cases) // 2, len(cases) - 1)],
+        'fails': fails,
+    }
+
+
+def bounded_refactorings_replay(rp):
+    res = run_refactoring_case(rp['case'], rp.get('tier', 'quick'))
+    want = rp.get('clause')
+    for fid, clause, detail in res['fails']:
+        if want is None or clause == want:
+            return False, detail[:900]
+    return True, 'ok'
